@@ -987,11 +987,12 @@ def sweep(ctx, rn, env, tag, thorough_extra=False):
                 rn.case(tag + "pair:keyshares", {"keyShares": ks, "eccCurves": ecc, "dhGroups": dh}, env)
 
 
-def judge_pair(ctx, table, kind, cspec, sspec, cred, alpn):
+def judge_pair(ctx, table, kind, cspec, sspec, cred, alpn, server_dh_bits=None):
     """run one pair in the lab and compare with the independent expectation; returns a short verdict"""
     from . import c19_pairs as P
-    r = P.run_pair(cspec, sspec, cred, alpn)
-    rep = {"stage": "pair", "kind": kind, "client": cspec, "server": sspec, "cred": cred, "alpn": alpn}
+    r = P.run_pair(cspec, sspec, cred, alpn, server_dh_bits)
+    rep = {"stage": "pair", "kind": kind, "client": cspec, "server": sspec, "cred": cred, "alpn": alpn,
+           "server_dh_bits": server_dh_bits}
     if r["outcome"].startswith("invalid"):
         ctx.count("pair:" + r["outcome"])
         return "invalid"
@@ -1089,6 +1090,102 @@ def judge_psk(ctx, table, label, spec):
     ctx.violation(key, text, detail)
 
 
+VNAME = {None: "none", (3, 0): "ssl3", (3, 1): "tls10", (3, 2): "tls11", (3, 3): "tls12", (3, 4): "tls13"}
+
+
+def entry_verdict(otable, spec, r):
+    from . import c19_entry as E
+    exp, why, v = E.entry_expectation(otable, spec, r["cset"], r["sset"])
+    if exp is None:
+        return None, "not judged (%s)" % why, exp, why
+    if exp is True and r["outcome"] != "complete":
+        exc = r.get("server_exc") if r.get("server_exc") not in (None, "none") else r.get("client_exc")
+        return ("c19:compatible-pair-fails:%s-%s-%s" % (spec["entry"], VNAME[v], str(exc).replace(":", "-")),
+                "%s endpoints with validated settings that share version %s, a suite and parameters inside the client's "
+                "key-size limits [%d, %d] do not complete (client: %s, server: %s)"
+                % (spec["entry"], VNAME[v], r["cset"]["minKeySize"], r["cset"]["maxKeySize"], r.get("client_exc"),
+                   r.get("server_exc")), exp, why)
+    if exp is False and r["outcome"] != "fail":
+        return ("c19:incompatible-pair-connects:%s-%s" % (spec["entry"], why),
+                "%s endpoints with %s completed a handshake" % (spec["entry"], why), exp, why)
+    return None, "ok", exp, why
+
+
+def judge_entry(ctx, otable, label, spec):
+    from . import c19_entry as E
+    r = E.run_entry_pair(spec)
+    if r["outcome"] == "invalid":
+        ctx.count("pair:invalid:" + spec["entry"])
+        return
+    ctx.case(key=("entry", repr(sorted(spec.items(), key=repr))),
+             sample={"kind": label, "spec": spec, "outcome": r["outcome"]} if ctx.evaluations % 701 == 0 else None)
+    ctx.count("pair-kind:" + label)
+    key, text, exp, why = entry_verdict(otable, spec, r)
+    ctx.count("pair-expected:%s:%s" % (exp, why if exp is not True else "ok"))
+    if exp is None:
+        ctx.count("info:pair-not-judged:%s:%s:%s" % (spec["entry"], why.split(":")[0], r["outcome"]))
+    if key is not None:
+        detail = dict(spec, stage="entry-pair", label=label)
+        detail["observed"] = {k: v for k, v in r.items() if k not in ("cset", "sset")}
+        ctx.violation(key, text, detail)
+
+
+def multipsk_verdict(table, spec, r):
+    from . import c19_entry as E
+    must, sel, why = E.multipsk_expectation(table, spec, r["cset"], r["sset"])
+    if must is None:
+        return None, "not judged (%s)" % why, must, why
+    if must is False:
+        if r["outcome"] != "fail":
+            return "c19:incompatible-pair-connects:multipsk-" + why, "endpoints with %s completed a handshake" % why, must, why
+        return None, "ok", must, why
+    if r["outcome"] != "complete":
+        exc = r.get("server_exc") if r.get("server_exc") not in (None, "none") else r.get("client_exc")
+        return ("c19:compatible-pair-fails:tls13-multipsk-%s" % str(exc).replace(":", "-"),
+                "TLS 1.3 endpoints that share a suite and %s do not complete (client offered %s, server holds %s; client: %s, "
+                "server: %s)" % ("a PSK of the suite's hash" if sel != "none" else "a certificate path",
+                                 [p["identity"] for p in spec["client_psks"]], [p["identity"] for p in spec["server_psks"]],
+                                 r.get("client_exc"), r.get("server_exc")), must, why)
+    if sel == "none" and r["selected_identity"] is not None:
+        return "c19:psk-used-with-wrong-hash", "server selected identity %s although no offered PSK fits" % r["selected_identity"], must, why
+    if isinstance(sel, list) and r["selected_identity"] not in sel:
+        return ("c19:psk-not-used:multi", "completed, but the server selected identity index %s; the PSKs fitting the suite are %s"
+                % (r["selected_identity"], sel), must, why)
+    return None, "ok", must, why
+
+
+def judge_multipsk(ctx, table, label, spec):
+    from . import c19_entry as E
+    r = E.run_multipsk_pair(spec)
+    if r["outcome"] == "invalid":
+        ctx.count("pair:invalid:multipsk")
+        return
+    ctx.case(key=("multipsk", repr(sorted(spec.items(), key=repr))),
+             sample={"kind": label, "spec": spec, "outcome": r["outcome"], "selected": r.get("selected_identity")}
+             if ctx.evaluations % 701 == 0 else None)
+    ctx.count("pair-kind:" + label)
+    key, text, must, why = multipsk_verdict(table, spec, r)
+    ctx.count("pair-expected:%s:%s" % (must, why if must is not True else "ok"))
+    if must is None:
+        ctx.count("info:pair-not-judged:multipsk:%s:%s" % (why.split(":")[0], r["outcome"]))
+    if key is not None:
+        detail = dict(spec, stage="multipsk-pair", label=label)
+        detail["observed"] = {k: v for k, v in r.items() if k not in ("cset", "sset")}
+        ctx.violation(key, text, detail)
+
+
+def entry_phase(ctx, table):
+    """other entry points (SRP, anonymous), key-size limits at the exact parameter sizes, several PSKs"""
+    from . import c19_entry as E
+    otable = E.other_table()
+    for (kind, c, s, cred, alpn, dhb) in E.cert_boundary_pairs():
+        judge_pair(ctx, table, kind, c, s, cred, alpn, dhb)
+    for label, spec in E.entry_pairs(ctx.rng, ctx.pick(150, 3000)):
+        judge_entry(ctx, otable, label, spec)
+    for label, spec in E.multipsk_pairs(ctx.rng, ctx.pick(150, 3000)):
+        judge_multipsk(ctx, table, label, spec)
+
+
 def pairs_phase(ctx):
     """second half of C19: compatible validated settings connect (live lab, real environment)"""
     from . import c19_pairs as P
@@ -1102,6 +1199,7 @@ def pairs_phase(ctx):
     # PSK / ticket dimension: shared external PSK or resumption ticket x share-at-once / HelloRetryRequest
     for label, spec in P.psk_pairs(ctx.rng, ctx.pick(250, 5000)):
         judge_psk(ctx, table, label, spec)
+    entry_phase(ctx, table)
 
 
 def run(ctx):
@@ -1117,15 +1215,22 @@ def run(ctx):
                 "cipher / MAC / key exchange / signature scheme, EMS/EtM/record_size_limit/ALPN combinations, and random pairs with "
                 "one-common / disjoint / random sub-lists per dimension; pairs sharing an external PSK (both hashes, psk_dhe_ke / psk_ke, "
                 "decoy identities) and clients resuming a TLS 1.3 ticket, each with the share sent at once / no share / another share "
-                "(HelloRetryRequest) over the group layouts; expectation = harness/props/c19_pairs.py:compatible, psk_expectation")
+                "(HelloRetryRequest) over the group layouts; servers holding several PSKs of different hashes with clients offering subsets "
+                "in different orders and cipherNames of one PRF hash (with / without a server certificate); SRP (verifierDB, with / "
+                "without certificate) and anonymous (EC)DH entry points; minKeySize / maxKeySize exactly at, one below and one above "
+                "the size of the RSA / DSA key, RFC 7919 group, server dhParams and SRP group; expectation = "
+                "harness/props/c19_pairs.py:compatible, psk_expectation, c19_entry.py:entry_expectation, multipsk_expectation")
     ctx.assumptions = ["copy.deepcopy + structural comparison sees every change of the receiver (opaque key/cert objects by type only)",
                        "patching cryptomath.m2cryptoLoaded / pycryptoLoaded / cipherfactory.tripleDESPresent and reloading "
                        "handshakesettings with patched availability flags is what another installation would look like",
                        "documented domains are the literals in harness/props/c19.py and Tls.Settings.InDomain",
                        "pair expectation: the version is negotiated first (highest common), everything else for it; pairs that "
                        "are compatible only at a lower common version, DHE without a common RFC 7919 group, an ECDSA certificate "
-                       "on a curve the client did not list, and RSA key transport without any common signature scheme are run "
-                       "but not judged"]
+                       "on a curve the client did not list, RSA key transport without any common signature scheme, SRP / anonymous "
+                       "clients that also enable TLS 1.3, a certificate-holding SRP server sharing only plain SRP suites, and a "
+                       "client offering a server-known PSK whose hash fits none of its suites are run but not judged",
+                       "key-size limits are inclusive (documentation: parameters smaller than minKeySize / larger than maxKeySize "
+                       "are refused)"]
     rn = Runner(ctx)
     envctl = rn.envctl
     try:
@@ -1221,6 +1326,24 @@ def run(ctx):
 
 def replay(ctx, rep):
     inp = rep["input"]
+    if inp.get("stage") in ("entry-pair", "multipsk-pair"):
+        from . import c19_pairs as P, c19_entry as E
+        spec = {k: v for k, v in inp.items() if k not in ("stage", "label", "observed", "broken_obligations",
+                                                          "correspondence_disagreements")}
+        if inp["stage"] == "entry-pair":
+            r = E.run_entry_pair(spec)
+            if r["outcome"] == "invalid":
+                return False
+            key, text, exp, why = entry_verdict(E.other_table(), spec, r)
+        else:
+            r = E.run_multipsk_pair(spec)
+            if r["outcome"] == "invalid":
+                return False
+            key, text, exp, why = multipsk_verdict(P.suite_table(), spec, r)
+        print("spec:", spec)
+        print("observed:", {k: v for k, v in r.items() if k not in ("cset", "sset")})
+        print("expected:", exp, "(%s)" % why, " verdict:", key, "-", text)
+        return key is not None
     if inp.get("stage") == "psk-pair":
         from . import c19_pairs as P
         table = P.suite_table()
@@ -1238,7 +1361,7 @@ def replay(ctx, rep):
         from . import c19_pairs as P
         table = P.suite_table()
         alpn = inp.get("alpn")
-        r = P.run_pair(inp["client"], inp["server"], inp["cred"], tuple(alpn) if alpn else None)
+        r = P.run_pair(inp["client"], inp["server"], inp["cred"], tuple(alpn) if alpn else None, inp.get("server_dh_bits"))
         if r["outcome"].startswith("invalid"):
             print("settings no longer validate:", r)
             return False
